@@ -1,6 +1,7 @@
 """Common examination of one pipeline case: reference vs Polars vs SQLite."""
 from __future__ import annotations
 
+import re
 import traceback
 
 from . import build, oracle, refsem
@@ -124,14 +125,15 @@ def engine_quirk(ex, case, ref=None):
         # a frame materialised from an empty result carries Null-typed columns (c); the library then rightly refuses
         # e.g. a Null-typed filter predicate
         return "polars_empty_frame_null_dtype"
+    if exc_name(ex) in ("InvalidOperationError", "SchemaError", "ComputeError") and re.search(r"[Ll]ist\(", msg) and any(
+            s.get("verb") == "summarize" for s in case.get("steps", [])):
+        return "polars_agg_returns_list"  # (j): a later operation trips over the list an aggregation returned
     if exc_name(ex) == "OperationalError" and "parser stack overflow" in msg:
         return "sqlite_parser_stack"  # expression nesting beyond the SQLite parser's stack (thorough-tier depths)
     if exc_name(ex) == "InvalidOperationError" and "conversion from" in msg and "failed" in msg and (
             "NaN" in msg or "inf" in msg):
         return "nan_or_inf_to_int"
     if exc_name(ex) == "InvalidOperationError" and "conversion from `f64` to `i64` failed" in msg:
-        import re
-
         m = re.search(r"values: \[([^\]]*)\]", msg)
         nums = []
         for tok in (m.group(1).split(",") if m else []):
